@@ -63,7 +63,7 @@ fn main() {
     let args = Args::parse();
     match args.positional.first().map(|s| s.as_str()) {
         Some("corpus") => {
-            let out = args.get("out").unwrap_or("/verif/work").to_string();
+            let out = args.get("out").map(String::from).unwrap_or_else(|| verif_core::common::work_dir().display().to_string());
             let c = corpus::build(args.seed(), args.tier());
             let mut feats = std::collections::BTreeMap::new();
             for s in &c.specs {
